@@ -30,6 +30,10 @@ def showDt : Option Dt → String
 
 def bad : Option String := some "bad-op"
 
+/-- offset of the zone harness/cxx/scalars.cpp runs in (TZ=IST-5:30, India Standard Time, no DST):
+what Qt takes a date-time WITHOUT zone designator to be ahead of UTC -/
+def harnessLocalOffset : Int := 19800
+
 /-- handle one op line; `none` when the line is not ours -/
 def step (line : String) : Option String :=
   let fs := if line.contains '\t' then Qx.Driver.fields line else Qx.Driver.words line
@@ -72,13 +76,20 @@ def step (line : String) : Option String :=
     | none => bad
   | ["scalar-dtparse", h] =>
     match strOfHex h with
-    | some s => some (showDt (dtParseCode s))
+    | some s => some (showDt (dtParseCodeAt harnessLocalOffset s))
     | none => bad
   | "scalar-dtprint" :: vs =>
     match (vs.flatMap (·.splitOn " ")).map String.toInt? with
     | [some y, some mo, some d, some h, some mi, some s, some ms] =>
       if mo < 0 ∨ d < 0 ∨ h < 0 ∨ mi < 0 ∨ s < 0 ∨ ms < 0 then bad
       else some (hexOfStr (dtToStr ⟨y, mo.toNat, d.toNat, h.toNat, mi.toNat, s.toNat, ms.toNat⟩))
+    | _ => bad
+  | "scalar-dtprintspec" :: _kind :: vs =>
+    -- a QDateTime of any time spec: offsetFromUtc() and its wall-clock fields
+    match vs.map String.toInt? with
+    | [some off, some y, some mo, some d, some h, some mi, some s, some ms] =>
+      if mo < 0 ∨ d < 0 ∨ h < 0 ∨ mi < 0 ∨ s < 0 ∨ ms < 0 then bad
+      else some (hexOfStr (stampToStr ⟨⟨y, mo.toNat, d.toNat, h.toNat, mi.toNat, s.toNat, ms.toNat⟩, off⟩))
     | _ => bad
   | ["scalar-class", cp] =>
     match cp.toNat? with
